@@ -306,7 +306,7 @@ fn c13_regressions() -> Vec<(&'static str, String, Option<Record>)> {
 pub fn check_c13(ctx: &Ctx, known: &KnownFindings) -> Report {
     let mut rep = Report::new("C13");
     let ks = known_sigs(known, "C13");
-    rep.rule = "three streams. valid: grammar-derived texts for the nine types (LDH/underscore names incl. 62-byte labels and maximal 253-byte names, with/without trailing dot, root owner; TTL 0/1/2^31/2^32-1; keywords in three cases; 1-3 blanks/tabs, leading/trailing blanks; A with leading zeros; AAAA compressed/full/uppercase; TXT literal + \\DDD escapes for any byte, lengths 1/254/255/256/510/511/3825; MX 0/65535; SOA with blanks/newlines in the parentheses; DS boundary numbers, 1..64 digest bytes, mixed-case hex) => RR::from_string Ok, bytes == reference RFC 1035 encoding, rdata() == rdata, and insertion into answer/authority/additional of a generated accepted response leaves an accepted packet whose last record of that section is the expected one (also after further insertions, and after an insertion that was refused at the 8192-byte limit). damaged: one grammar-excluded change (21 kinds) => Err. arbitrary: random Unicode/ASCII/token soup => no panic, and anything accepted decodes as exactly one well-formed class-IN record of one of the nine types with type-correct data. Non-trivial: valid text with >= 1 boundary feature, any damaged text, any accepted arbitrary text; distinct = hash of text.".into();
+    rep.rule = "three streams. valid: grammar-derived texts for the nine types (LDH/underscore names incl. 62-byte labels and maximal 253-byte names, with/without trailing dot, root owner; TTL 0/1/2^31/2^32-1; keywords in three cases; 1-3 blanks/tabs, leading/trailing blanks; A with leading zeros; AAAA compressed/full/uppercase; TXT literal + \\DDD escapes for any byte, lengths 1/254/255/256/510/511/3825; MX 0/65535; SOA with blanks/newlines in the parentheses; DS boundary numbers, 1..64 digest bytes, mixed-case hex) => RR::from_string Ok, bytes == reference RFC 1035 encoding, rdata() == rdata, and insertion into answer/authority/additional of a generated accepted response leaves an accepted packet whose last record of that section is the expected one (also after further insertions, and after an insertion that was refused at the 8192-byte limit). damaged: one grammar-excluded change (24 kinds) => Err. arbitrary: random Unicode/ASCII/token soup => no panic, and anything accepted decodes as exactly one well-formed class-IN record of one of the nine types with type-correct data. Non-trivial: valid text with >= 1 boundary feature, any damaged text, any accepted arbitrary text; distinct = hash of text.".into();
     rep.assumptions = vec!["'valid' texts stay inside the unambiguous core of the grammar: no all-numeric owner names, TXT <= 3825 bytes, host names of wire length <= 253 with labels <= 62".into()];
     for (name, text, want) in c13_regressions() {
         let r = catch(|| -> PResult {
